@@ -51,6 +51,7 @@ type Cluster struct {
 	Log     []*Req
 	// FailMut[k]: reject the mutating request with index k (no effect on the store). FailSeq likewise by global sequence.
 	FailMut map[int]bool
+	FailCode  int               // HTTP status of injected faults: 0/500 InternalError, 403 Forbidden, 422 Invalid
 	// FailReq: a read request for which it returns true is rejected (evaluated in begin, store lock held)
 	FailReq func(r *Req) bool
 	InvLists int // number of LISTs so far (the harness only lists the inventory resource)
